@@ -49,28 +49,29 @@ type EnvChoice struct {
 
 // Cfg mirrors the cfg record of Session.tla.
 type Cfg struct {
-	Op       string   `json:"op"`
-	Nr       []int    `json:"nr"`
-	Enc8     []bool   `json:"enc8"`
-	Rf       []string `json:"rf"`
-	Caps     []string `json:"caps"`
-	Dsn      string   `json:"dsn"`
-	Nonoop   bool     `json:"nonoop"`
-	Cs       int      `json:"cs"`
-	Policy   string   `json:"policy"`
-	Authtype string   `json:"authtype"`
-	Noenc    bool     `json:"noenc"`
-	Hostkind string   `json:"hostkind"`
-	Logauth  bool     `json:"logauth"`
-	Debug    bool     `json:"debug"`
-	Starttls bool     `json:"starttls"`
-	Authlist []string `json:"authlist"`
-	Hs       string   `json:"hs"`
-	Caps2    []string `json:"caps2"`
-	Logger   string   `json:"logger"` // capture (default), std, json
-	Fallback bool     `json:"fallback"`
-	Redial   bool     `json:"redial"` // dial with TLS policy none first, then set the policy of the scenario and run the operation
-	Big      bool     `json:"-"` // attachments larger than every buffer on the way (content stalls)
+	Op        string   `json:"op"`
+	Nr        []int    `json:"nr"`
+	Enc8      []bool   `json:"enc8"`
+	Rf        []string `json:"rf"`
+	Caps      []string `json:"caps"`
+	Dsn       string   `json:"dsn"`
+	Nonoop    bool     `json:"nonoop"`
+	Cs        int      `json:"cs"`
+	Policy    string   `json:"policy"`
+	Authtype  string   `json:"authtype"`
+	Noenc     bool     `json:"noenc"`
+	Hostkind  string   `json:"hostkind"`
+	Logauth   bool     `json:"logauth"`
+	Debug     bool     `json:"debug"`
+	Starttls  bool     `json:"starttls"`
+	Authlist  []string `json:"authlist"`
+	Hs        string   `json:"hs"`
+	Caps2     []string `json:"caps2"`
+	Logger    string   `json:"logger"` // capture (default), std, json
+	Fallback  bool     `json:"fallback"`
+	Latedebug bool     `json:"latedebug"` // debug logging is switched on while the AUTH exchange is in flight
+	Redial    bool     `json:"redial"`    // dial with TLS policy none first, then set the policy of the scenario and run the operation
+	Big       bool     `json:"-"`         // attachments larger than every buffer on the way (content stalls)
 }
 
 // gate hooks of the smtp package (build tag verif), dispatched by goroutine
@@ -632,7 +633,7 @@ func (rn *Runner) Run() {
 	// server script
 	faults := map[refsmtp.Key]refsmtp.Fault{}
 	for i, e := range sc.Env {
-		if e.C == "xclose" { // happens on the client side: the server only sees the connection go away
+		if e.C == "xclose" || e.C == "xnoop" { // happens on the client side
 			continue
 		}
 		faults[refsmtp.Key{V: e.V, M: e.M, R: e.R}] = refsmtp.Fault{K: i + 1, Class: e.C, Shape: e.Sh, Rot: cfg.Cs}
@@ -870,19 +871,25 @@ func (rn *Runner) Run() {
 				default:
 					sc2.SetLogger(tap)
 				}
-				sc2.SetDebugLog(true)
+				if !cfg.Latedebug {
+					sc2.SetDebugLog(true)
+				}
 			}
 			if cfg.Logauth {
 				sc2.SetLogAuthData()
 			}
 			// "xclose": another goroutine closes the client right before the scripted command of the exchange
 			xclose := map[refsmtp.Key]bool{}
+			xnoop := map[refsmtp.Key]bool{}
 			for _, e := range sc.Env {
 				if e.C == "xclose" {
 					xclose[refsmtp.Key{V: e.V, M: e.M, R: e.R}] = true
 				}
+				if e.C == "xnoop" {
+					xnoop[refsmtp.Key{V: e.V, M: e.M, R: e.R}] = true
+				}
 			}
-			if len(xclose) > 0 {
+			if len(xclose) > 0 || len(xnoop) > 0 || (cfg.Latedebug && cfg.Debug) {
 				j, started := 0, false
 				id := goid()
 				setHook(id, func(event, format string) {
@@ -899,6 +906,14 @@ func (rn *Runner) Run() {
 						k = refsmtp.Key{V: "AUTHRESP", R: j}
 					default:
 						return
+					}
+					if cfg.Latedebug && cfg.Debug && k.V == "AUTHRESP" && k.R == 1 {
+						sc2.SetDebugLog(true) // the caller switches debug logging on while the exchange is in flight
+					}
+					if xnoop[k] { // another goroutine uses the client: a complete NOOP exchange
+						done := make(chan struct{})
+						go func() { defer close(done); _ = sc2.Noop() }()
+						<-done
 					}
 					if xclose[k] {
 						r.Emit("xclose")
